@@ -57,6 +57,7 @@ func init() {
 		"zzOpaqueInit":   zzOpaqueInit,
 		"zzJSON":         zzJSON,
 		"zzParamInt":     zzParamInt,
+		"zzDeepEqual":    func(s *State, a []Value) Value { return s.deepEqual(a[0], a[1], 0) },
 	}
 }
 
